@@ -160,20 +160,25 @@ class SkBaseTransformLearner(SkBaseTransform):
         if "model" in values:
             self.model = values["model"]
             del values["model"]
+            if "method" not in values:
+                # binds the current method to the new model
+                self._set_method(self.method)
         elif not hasattr(self, "model") or self.model is None:
             raise KeyError(f"Missing key 'model' in [{', '.join(sorted(values))}]")
         if "method" in values:
             self._set_method(values["method"])
+            self.method = values["method"]
             del values["method"]
+        own = {k: values.pop(k) for k in list(values) if k in self.P.Keys}
+        if own:
+            super().set_params(**own)
         for k in values:
             if not k.startswith("model__"):
                 raise ValueError(f"Parameter '{k}' must start with 'model__'.")
         d = len("model__")
         pars = {k[d:]: v for k, v in values.items()}
         self.model.set_params(**pars)
-        if "method" in values:
-            self.method = values["method"]
-            self._set_method(values["method"])
+        return self
 
     #################
     # common methods
